@@ -24,7 +24,10 @@ RULE = ("collector stream: random abstract segments (0-12 postings each, 1-4 seg
         "end-to-end streams: random corpus (W3Codec blocklimit 1/2/4/8, 1-4 segments, deletions, boosts) x random "
         "query tree x filter/mask/collapse/terms wrappers, Or-of-terms union trees (terms=True), deleted documents "
         "among the best hits, AndNot/AndMaybe/Require with a compound second operand, a final()-hook "
-        "weighting; non-trivial = the limited search reported skipped_times+replaced_times > 0; distinct = distinct "
+        "weighting, DisjunctionMax with a non-zero tie-breaker (plain, nested, boosted, and the Or-of-per-word-dismax "
+        "shape DisMaxParser builds; the general query generator also draws tiebreak from {0, 0.25, 0.5, 1, 2}), "
+        "Require/AndMaybe/AndNot whose scored side is an intersection (And of frequent terms, Phrase, And with a "
+        "union) over blocklimit 1-3 posting lists; non-trivial = the limited search reported skipped_times+replaced_times > 0; distinct = distinct "
         "canonical case. A failing case is attributed to a recorded root cause only if it passes when exactly that "
         "root cause is repaired in-process and the cause's precondition holds on the minimised input")
 ASSUMPTIONS = ["matchers honour the C12 contract WM.Matcher.Keeps for a non-zero threshold q (entries scoring > q are "
@@ -986,6 +989,109 @@ def _binary_compound_worker(seedstr):
     return out
 
 
+
+def _frequent_words(corpus, rng, n=2):
+    """n distinct words of field t, biased to the most frequent ones (long, multi-block posting lists whose
+    intersection is not empty)."""
+    cnt = {}
+    for d in corpus["docs"]:
+        for w in set(d["t"]):
+            cnt[w] = cnt.get(w, 0) + 1
+    ranked = sorted(G.VOCAB, key=lambda w: (-cnt.get(w, 0), w))
+    out = []
+    while len(out) < n:
+        w = ranked[min(len(ranked) - 1, int(rng.random() ** 2 * 5))] if rng.random() < 0.8 else rng.choice(G.VOCAB)
+        if w not in out:
+            out.append(w)
+    return out
+
+
+def _dismax_tiebreak_worker(seedstr):
+    """DisjunctionMax with a non-zero tie-breaker (directly, nested, and in the shape DisMaxParser builds:
+    an Or of per-word DisjunctionMax over the fields), documents matching several sub-queries, k below the
+    number of matches: whatever score() does with the tie-breaker, the quality bounds used for pruning must
+    dominate it, i.e. limit=k must stay the prefix of the exhaustive ranking."""
+    import random
+    rng = random.Random(seedstr)
+    corpus = G.gen_corpus(rng, maxdocs=60)
+    corpus["blocklimit"] = rng.choice([1, 2, 2, 4])
+    wname = rng.choice(["freq", "freq", "tfidf", "bm25", "bm25b0", "bm25k"])
+    exact = wname in EXACT_WEIGHTINGS
+    out = []
+    ix = G.build_index(corpus)
+
+    def t(w=None, f=None):
+        return ["term", f or rng.choice(["t", "t", "t", "u"]), w or rng.choice(G.VOCAB)]
+    with ix.searcher(weighting=G.build_weighting(wname)) as s:
+        n = s.doc_count()
+        for _ in range(6):
+            tb = rng.choice([0.25, 0.5, 0.5, 1.0, 2.0])
+            words = _frequent_words(corpus, rng, rng.choice([2, 2, 3]))
+            shape = rng.choice(["plain", "plain", "plain", "parser", "parser", "nested-or", "nested-and", "boost",
+                                "compound-sub"])
+            if shape == "plain":
+                qd = ["dismax", [t(w, "t") for w in words], tb]
+            elif shape == "parser":
+                # DisMaxParser({"t": 1.0, "u": 0.5}, schema, tiebreak=tb).parse("w1 w2"): Or of per-word dismax
+                qd = ["or", [["dismax", [["term", "t", w], ["boost", ["term", "u", w], 0.5]], tb] for w in words[:2]]]
+            elif shape == "nested-or":
+                qd = ["or", [["dismax", [t(w, "t") for w in words[:2]], tb], t()]]
+            elif shape == "nested-and":
+                qd = ["and", [["dismax", [t(w, "t") for w in words[:2]], tb], t(words[-1], "t")]]
+            elif shape == "boost":
+                qd = ["boost", ["dismax", [t(w, "t") for w in words], tb], rng.choice([0.5, 0.25])]
+            else:
+                qd = ["dismax", [["or", [t(words[0], "t"), t()]], t(words[1], "t")], tb]
+            res = _e2e_run_one(s, qd, [k for k in (1, 2, 3, 5) if k < n], exact)
+            out.append({"corpus": corpus, "weighting": wname, "q": qd, "n": n, "res": res, "zero": False,
+                        "extra": None})
+    return out
+
+
+def _binary_intersection_worker(seedstr):
+    """Require / AndMaybe / AndNot whose *scored* side is an intersection (And of frequent terms, a Phrase, And
+    with a union inside) over multi-block posting lists: the scored side steps forward document by document
+    inside skip_to_quality() (reporting 0 skipped blocks), so the wrapper has to re-align with its second
+    operand whatever the count says."""
+    import random
+    rng = random.Random(seedstr)
+    corpus = G.gen_corpus(rng, maxdocs=80)
+    corpus["blocklimit"] = rng.choice([1, 1, 2, 2, 3])
+    if rng.random() < 0.6:
+        corpus["cuts"] = []
+    wname = rng.choice(["freq", "freq", "tfidf", "bm25", "bm25b0"])
+    exact = wname in EXACT_WEIGHTINGS
+    out = []
+    ix = G.build_index(corpus)
+
+    def t(w=None, f=None):
+        return ["term", f or rng.choice(["t", "t", "u"]), w or rng.choice(G.VOCAB)]
+    with ix.searcher(weighting=G.build_weighting(wname)) as s:
+        n = s.doc_count()
+        for _ in range(6):
+            words = _frequent_words(corpus, rng, 3)
+            sk = rng.choice(["and2", "and2", "and2", "and3", "phrase", "and-or"])
+            if sk == "and2":
+                scored = ["and", [t(words[0], "t"), t(words[1], "t")]]
+            elif sk == "and3":
+                scored = ["and", [t(w, "t") for w in words]]
+            elif sk == "phrase":
+                scored = ["phrase", "t", [words[0], words[1]], rng.choice([1, 2, 3])]
+            else:
+                scored = ["and", [t(words[0], "t"), ["or", [t(words[1], "t"), t()]]]]
+            other = rng.choice([t(words[2], "t"), t(words[2], "t"), t(None, "u"), ["or", [t(), t()]], ["every", None],
+                                ["and", [t(words[2], "t"), t()]]])
+            qd = [rng.choice(["require", "require", "require", "andmaybe", "andnot"]), scored, other]
+            x = rng.random()
+            if x < 0.15:
+                qd = ["or", [qd, t()]]
+            elif x < 0.25:
+                qd = ["boost", qd, 0.5]
+            res = _e2e_run_one(s, qd, [k for k in (1, 2, 3, 5) if k < n], exact)
+            out.append({"corpus": corpus, "weighting": wname, "q": qd, "n": n, "res": res, "zero": False,
+                        "extra": None})
+    return out
+
 def _stream_focused(ctx, name, worker, n, about):
     recs = [r for rs in ctx.pmap(worker, ["%s:%d:%d:%s" % (ctx.pid, ctx.seed, i, name) for i in range(n)],
                                  chunksize=2) for r in rs]
@@ -1023,6 +1129,16 @@ def _stream_binary_compound(ctx):
                     "AndNot/AndMaybe/Require with a compound second operand")
 
 
+def _stream_dismax_tiebreak(ctx):
+    _stream_focused(ctx, "dismaxtb", _dismax_tiebreak_worker, ctx.budget(80, 800),
+                    "DisjunctionMax with a non-zero tie-breaker")
+
+
+def _stream_binary_intersection(ctx):
+    _stream_focused(ctx, "binand", _binary_intersection_worker, ctx.budget(100, 1000),
+                    "Require/AndMaybe/AndNot whose scored side is an intersection, multi-block posting lists")
+
+
 def _stream_deleted_blocks(ctx):
     _stream_focused(ctx, "delblocks", _deleted_blocks_worker, ctx.budget(120, 1200),
                     "deleted documents among the best hits, tiny posting blocks")
@@ -1038,6 +1154,8 @@ def run(ctx):
             _stream_union_tree(ctx)
             _stream_deleted_blocks(ctx)
             _stream_binary_compound(ctx)
+            _stream_dismax_tiebreak(ctx)
+            _stream_binary_intersection(ctx)
             _stream_e2e(ctx)
         finally:
             G.cleanup_private_tmp()
